@@ -519,7 +519,7 @@ fn run_world(rep: &Report, hk: Hk, issuer_alg: Alg) {
 
 // ---- aud / nonce string alphabet: honest presentations must be accepted for every (aud, nonce) pair
 fn string_alphabet(rep: &Report) {
-    let strs = ["[\"https://v.example\"]", "[\"a\",\"b\"]", "{}", "null", "true", "1", "\"a\"", "a,b", "*",
+    let strs = ["[\"https://v.example\"]", "[\"a\",\"b\"]", "{}", "null", "true", "1", "\"a\"", "a,b", "*", "Https://V.example", " a ", "e\u{301}",
         "a", "", "https://v.example", "\u{f1}", "xxxxxxxxxxxxxxxxxxxxxxxxxxxxxxxxxxxxxxxxxxxxxxxxxxxxxxxxxxxxxxxx", "a b", "\"", "~", "a.b", "\u{1F600}"];
     let mut items = vec![];
     for a in strs {
@@ -579,6 +579,12 @@ fn string_alphabet(rep: &Report) {
         }
         if !a.is_empty() || !n.is_empty() {
             others.push((String::new(), String::new()));
+        }
+        // case-folded, trimmed and padded variants are different strings
+        for (a2, n2) in [(a.to_uppercase(), n.to_string()), (a.to_lowercase(), n.to_string()), (a.to_string(), n.to_uppercase()), (format!(" {a}"), n.to_string()), (a.to_string(), format!("{n} ")), (a.trim().to_string(), n.trim().to_string())] {
+            if a2 != a || n2 != n {
+                others.push((a2, n2));
+            }
         }
         for (a2, n2) in others {
             l.evals += 1;
